@@ -40,7 +40,7 @@ func init() {
 func c20Held(c *core.Ctx) {
 	var cells [c20NCells]int64
 	var types [258]bool
-	n := c.N(300, 6000)
+	n := c.N(300, 15000)
 	for base := 0; base < n; base += 12 {
 		if !c.Mine(base / 12) {
 			continue
@@ -106,7 +106,7 @@ func c20Held(c *core.Ctx) {
 // "db.table" renderings coincide must still serialise with their own names,
 // in one transaction and across transactions.
 func c20DottedNames(c *core.Ctx) {
-	n := c.N(200, 5000)
+	n := c.N(200, 12000)
 	for i := 0; i < n; i++ {
 		if !c.Mine(i) {
 			continue
@@ -144,7 +144,7 @@ func c20DottedNames(c *core.Ctx) {
 }
 
 func c20EndToEnd(c *core.Ctx) {
-	nh := c.N(120, 600)
+	nh := c.N(120, 1500)
 	for idx := 0; idx < nh; idx++ {
 		if !c.Mine(idx) {
 			continue
